@@ -291,6 +291,10 @@ func c13Cases(c *Ctx) []c13Case {
 			cs = append(cs, hdr("ascii-pair-nested", Nest(&LItem{Kind: "L", Kids: []*LItem{A(a, b), A(b, 'z', a)}}, 1+r.IntN(3))))
 		}
 	}
+	// wide runs of empty / shallow lists around deep branches (the nesting limit is per path; after seeded C13e-2)
+	for _, it := range SiblingDepthCases() {
+		cs = append(cs, hdr("sibling-depth", it))
+	}
 	// header extremes
 	for _, s := range []uint8{0, 1, 9, 10, 99, 100, 126, 127} {
 		for _, f := range []uint8{0, 1, 2, 9, 10, 99, 100, 254, 255} {
